@@ -94,6 +94,8 @@ def build_orbit(node, spec, propagator=None):
         src = build_orbit(node, spec["src"])
         start = src.date + td(node, spec["start_off"])
         eph = src.ephem(start=start, stop=td(node, spec["dur_s"]), step=td(node, spec["step_s"]))
+        if spec.get("interp"):
+            eph.method = spec["interp"]  # e.g. "linear" (an OEM may ask for it)
         if spec.get("in_frame"):
             # an ephemeris handed over in another frame (e.g. the topocentric frame of a station registered on this node)
             eph.frame = node.frames.get_frame(spec["in_frame"])
